@@ -153,7 +153,8 @@ class C14(Prop):
                   'debversion 0.4.4 on Policy-canonical versions (C14_debversion_canonical) giving the closed forms C14_relation_rt_dv, '
                   'C14_relations_rt_dv over a decidable domain. Conversely every value the reader returns, on any string, has valid '
                   'components and non-empty entries (C14_reader_range), so printing it and reading again returns it as soon as the version '
-                  'law holds for the versions it contains (C14_relation_reread, C14_relations_reread). The unpatched code is kept as RelLossy.old_... and refuted on four '
+                  'law holds for the versions it contains (C14_relation_reread, C14_relations_reread) — unconditionally for the modelled debversion, '
+                  'which reads back whatever it read (C14_debversion_stable, C14_reread_dv: print after read is idempotent on all strings). The unpatched code is kept as RelLossy.old_... and refuted on four '
                   'witnesses (C14_old_..._refuted). PARTIAL: the conversion clauses (lossy <-> lossless, lossless reader reads the same '
                   'structure) are stated as C14_conv_full and decided on the implementation by the oracle of the rel-lossy-conv stream only.')
     level_note = ('Model: coq/model/RelLossy.v (reader over RelLex tokens, Display impls, str::split/trim, debversion 0.4.4 parse/print as a '
